@@ -702,6 +702,14 @@ pub fn fam_serial(tier: Tier) -> Vec<Config> {
                                     "serial/{place}|nc{nconc}|ns{nser}|c{conc:?}|{layout}|lazy{}|{retry}",
                                     u8::from(lazy)
                                 );
+                                if conc == Some(3) && place == "scenario" {
+                                    // the same limit given as `--concurrency 3` over a builder limit of 1
+                                    let mut o = cfg.clone();
+                                    o.conc_builder = Some(Some(1));
+                                    o.conc_cli = Some(3);
+                                    o.name = format!("{}|cli-over-1", cfg.name);
+                                    out.push(o);
+                                }
                                 out.push(cfg);
                             }
                         }
@@ -830,6 +838,34 @@ pub fn fam_retry(tier: Tier) -> Vec<Config> {
                 }
             }
         }
+    }
+    // a composite retry filter whose tags sit on different levels (feature / rule / scenario):
+    // it is evaluated over their union
+    for (expr, ftag, rtag, stag, selected) in [
+        ("@p and @q", "p", "", "q", true),
+        ("@p and @q", "", "p", "q", true),
+        ("@p and not @q", "p", "", "q", false),
+        ("not @p", "p", "", "", false),
+        ("@p and @q", "p", "", "", false),
+    ] {
+        let mut cfg = base(String::new());
+        let t = |x: &str| if x.is_empty() { vec![] } else { vec![x.to_owned()] };
+        cfg.feats = vec![FeatSpec {
+            tags: t(ftag),
+            rules: vec![RuleSpec { tags: t(rtag), bg: vec![], scenarios: vec![ScenSpec { tags: t(stag), steps: vec![M] }] }],
+            ..Default::default()
+        }];
+        cfg.items = vec![Item::Feat(0)];
+        cfg.retries_builder = Some(2);
+        cfg.retry_filter_builder = Some(expr.to_owned());
+        cfg.conc_builder = Some(Some(1));
+        cfg.plan.gates = GateMode::None;
+        let key = cfg.scen_infos()[0].calls[0].key.clone();
+        cfg.plan.outcomes.insert(key, vec![Outcome::PanicString, Outcome::Pass]);
+        cfg.max_execs = 20;
+        let _ = selected;
+        cfg.name = format!("retry/filter-levels|{expr}|f{ftag}|r{rtag}|s{stag}");
+        out.push(cfg);
     }
     out
 }
@@ -973,6 +1009,7 @@ pub fn fam_panic(tier: Tier) -> Vec<Config> {
         Some(Outcome::PanicString),
         Some(Outcome::PanicStr),
         Some(Outcome::PanicCustom),
+        Some(Outcome::PanicOnThread),
     ];
     for world in [WOutcome::Ok, WOutcome::Err, WOutcome::Panic] {
         for (gates, sync) in [
@@ -1232,6 +1269,33 @@ pub fn fam_verdict(tier: Tier) -> Vec<Config> {
                     }
                 }
             }
+        }
+    }
+    // a @serial scenario whose delayed retry comes due while concurrent scenarios run: the
+    // verdict follows its *last* attempt (which must happen)
+    for passes in [true, false] {
+        for stay in [1usize, 2] {
+            let mut c = base(String::new());
+            c.feats = vec![
+                feat(vec![scen(&["serial", "retry(1).after(5s)"], &[M])]),
+                feat((0..stay + 1).map(|_| scen(&[], &[M])).collect()),
+            ];
+            c.items = vec![Item::Feat(0), Item::Feat(1)];
+            c.before = true;
+            c.after = true;
+            c.conc_builder = Some(Some(2));
+            c.plan.gates = GateMode::Steps;
+            c.clock_budget = 1;
+            c.clock_step = Duration::from_secs(6);
+            let infos = c.scen_infos();
+            c.plan.outcomes.insert(
+                infos[0].calls[0].key.clone(),
+                if passes { vec![Outcome::PanicString, Outcome::Pass] } else { vec![Outcome::PanicString] },
+            );
+            c.bound = Some(2);
+            c.max_execs = 600;
+            c.name = format!("verdict/serial-delay|passes{}|stay{stay}", u8::from(passes));
+            out.push(c);
         }
     }
     out
@@ -1575,6 +1639,22 @@ pub fn fam_dup(tier: Tier) -> Vec<Config> {
                                 u8::from(retry),
                                 u8::from(sync)
                             );
+                            if !retry && !lazy && copies == 2 {
+                                // fail-fast cut while several value-equal features / rules are open:
+                                // each of them still gets its Finished
+                                let mut f = c.clone();
+                                f.fail_fast_builder = true;
+                                let infos = f.scen_infos();
+                                f.plan.outcomes.insert(infos[0].calls[0].key.clone(), vec![Outcome::PanicString, Outcome::Pass]);
+                                f.name = format!("{}|failfast", c.name);
+                                // ... and with a serial scenario per copy: the concurrent ones of all
+                                // copies go first, so several copies are open at the cut
+                                let mut g = f.clone();
+                                g.feats[0].scenarios.push(scen(&["serial"], &[M]));
+                                g.name = format!("{}|failfast|serial", c.name);
+                                out.push(f);
+                                out.push(g);
+                            }
                             out.push(c);
                         }
                     }
